@@ -250,13 +250,37 @@ fn render(ctx: Ctx, d: Dialect, calls: &[Call]) -> Option<Result<String, String>
             if d == Dialect::Mysql {
                 return None;
             }
-            let c = single_condition(calls)?;
             let mut oc = OnConflict::column(al("id"));
             oc.update_column(al("hit"));
-            if ctx == Ctx::OnConflictActionWhere {
-                oc.action_cond_where(c);
-            } else {
-                oc.target_cond_where(c);
+            let action = ctx == Ctx::OnConflictActionWhere;
+            for c in calls {
+                match (c, action) {
+                    (Call::And(i), true) => {
+                        oc.action_and_where(atom_expr(*i));
+                    }
+                    (Call::And(i), false) => {
+                        oc.target_and_where(atom_expr(*i));
+                    }
+                    (Call::AndOption(o), true) => {
+                        oc.action_and_where_option(o.map(atom_expr));
+                    }
+                    (Call::AndOption(o), false) => {
+                        oc.target_and_where_option(o.map(atom_expr));
+                    }
+                    (Call::Cond(C::Group { any, neg, items }), true) => {
+                        oc.action_cond_where(to_condition(*any, *neg, items));
+                    }
+                    (Call::Cond(C::Group { any, neg, items }), false) => {
+                        oc.target_cond_where(to_condition(*any, *neg, items));
+                    }
+                    (Call::Cond(C::Atom(i)), true) => {
+                        oc.action_cond_where(atom_expr(*i));
+                    }
+                    (Call::Cond(C::Atom(i)), false) => {
+                        oc.target_cond_where(atom_expr(*i));
+                    }
+                    (Call::Cond(C::Nothing), _) => {}
+                }
             }
             let mut s = Query::insert();
             s.into_table(al("tv")).columns([al("id")]).values_panic([1.into()]).on_conflict(oc);
@@ -289,15 +313,23 @@ fn predicate_text(ctx: Ctx, sql: &str) -> Result<Option<String>, String> {
         Ctx::OnConflictActionWhere => (" WHERE ", None),
         Ctx::OnConflictTargetWhere => (" WHERE ", Some(" DO UPDATE ")),
     };
+    // ON CONFLICT has two predicates: the one of the conflict target (before DO UPDATE) and the one of the action (after
+    // DO UPDATE SET); each context supplies one of them and the other must not appear
+    if matches!(ctx, Ctx::OnConflictActionWhere | Ctx::OnConflictTargetWhere) {
+        let Some(du) = sql.find(" DO UPDATE SET ") else { return Err(format!("no DO UPDATE SET in {sql:?}")) };
+        let (before, after) = (&sql[..du], &sql[du + " DO UPDATE SET ".len()..]);
+        let (own, other, other_name) = if ctx == Ctx::OnConflictActionWhere { (after, before, "conflict target") } else { (before, after, "action") };
+        if other.contains(" WHERE ") {
+            return Err(format!("the {other_name} was given no condition but has a WHERE: {sql:?}"));
+        }
+        return Ok(own.find(" WHERE ").map(|p| own[p + " WHERE ".len()..].to_string()));
+    }
     let Some(pos) = sql.find(kw) else { return Ok(None) };
     let rest = &sql[pos + kw.len()..];
     let rest = match end {
         Some(e) => &rest[..rest.rfind(e).ok_or_else(|| format!("no {e:?} in {sql:?}"))?],
         None => rest,
     };
-    if ctx == Ctx::OnConflictActionWhere && !sql[..pos].contains(" DO UPDATE SET ") {
-        return Err(format!("action WHERE is not after DO UPDATE SET in {sql:?}"));
-    }
     Ok(Some(rest.to_string()))
 }
 
@@ -803,7 +835,15 @@ pub fn run(rep: &Arc<Report>) {
         seqs.extend(next.iter().cloned());
         frontier = next;
     }
-    // number atoms across the whole sequence
+    // number atoms across the whole sequence: all different (p, q, r, s, p, ..), and - so that a later call repeats
+    // members of an earlier one - alternating (p, q, p, q, ..) and all the same (p, p, ..)
+    fn renumber(c: &mut C, m: u8) {
+        match c {
+            C::Atom(i) if *i < 4 => *i %= m,
+            C::Group { items, .. } => items.iter_mut().for_each(|x| renumber(x, m)),
+            _ => {}
+        }
+    }
     for s in seqs.iter_mut() {
         let mut n = 0u8;
         for c in s.iter_mut() {
@@ -817,8 +857,30 @@ pub fn run(rep: &Arc<Report>) {
             }
         }
     }
+    let distinct_numbered = seqs.len();
+    {
+        let mut seen: std::collections::HashSet<String> = seqs.iter().map(|s| show_calls(s)).collect();
+        let mut extra = vec![];
+        for m in [2u8, 1] {
+            for s in &seqs {
+                let mut s2 = s.clone();
+                for c in s2.iter_mut() {
+                    match c {
+                        Call::And(i) | Call::AndOption(Some(i)) => *i %= m,
+                        Call::Cond(t) => renumber(t, m),
+                        _ => {}
+                    }
+                }
+                if seen.insert(show_calls(&s2)) {
+                    extra.push(s2);
+                }
+            }
+        }
+        seqs.extend(extra);
+    }
+    rep.set("call_sequences_with_repeated_atoms", json!(seqs.len() - distinct_numbered));
     let n_seqs = seqs.len();
-    let seq_ctxs: &[Ctx] = if rep.thorough() { &[Ctx::SelectWhere, Ctx::Having, Ctx::UpdateWhere, Ctx::DeleteWhere, Ctx::PartialIndex] } else { &[Ctx::SelectWhere, Ctx::Having, Ctx::DeleteWhere] };
+    let seq_ctxs: &[Ctx] = if rep.thorough() { &[Ctx::SelectWhere, Ctx::Having, Ctx::UpdateWhere, Ctx::DeleteWhere, Ctx::PartialIndex, Ctx::OnConflictActionWhere, Ctx::OnConflictTargetWhere] } else { &[Ctx::SelectWhere, Ctx::Having, Ctx::DeleteWhere, Ctx::OnConflictActionWhere, Ctx::OnConflictTargetWhere] };
     par_items(&seqs, |_w, s| {
         for ctx in seq_ctxs {
             for d in DIALECTS {
